@@ -17,7 +17,7 @@ from typing import Callable, Dict, List, Optional, Union
 
 from jsonargparse import ActionConfigFile, ArgumentParser, Namespace, lazy_instance
 
-from vf.fixtures import zoo
+from vf.fixtures import zoo, zoo16
 from vf.util import call, environ, short, strip_prov
 
 ADDR = re.compile(r"0x[0-9a-fA-F]+")
@@ -33,6 +33,10 @@ class PartOrFactory:
 
     def __init__(self, part: Union[zoo.Base, Callable[[int], zoo.Base]] = None, n: int = 0):
         self.part, self.n = part, n
+
+
+def _attr_of(obj):
+    return obj.attr
 
 
 def make_parser(variant, eoe, workdir):
@@ -56,6 +60,12 @@ def make_parser(variant, eoe, workdir):
         p.add_argument("--dst", type=int)
         p.link_arguments("src", "dst", compute_fn=lambda v: v * 10)
         p.link_arguments("i", "grp.a")
+        # links applied when the classes are built; the constructor of `late` raises for own=13
+        p.add_argument("--enc", type=zoo16.C0, default=lazy_instance(zoo16.C0, own=2))
+        p.add_argument("--dec", type=zoo16.C1, default=lazy_instance(zoo16.C1, own=3))
+        p.add_argument("--late", type=zoo16.C2, default=lazy_instance(zoo16.C2, own=4))
+        p.link_arguments("enc.attr", "dec.init_args.f0", apply_on="instantiate")
+        p.link_arguments("enc", "late.init_args.f1", compute_fn=_attr_of, apply_on="instantiate")
     if variant["sub"]:
         sc = p.add_subcommands(required=False)
         a = ArgumentParser(exit_on_error=eoe)
@@ -240,6 +250,15 @@ def gen_history(rng, variant, maxlen):
             else:
                 hist.append(("parse_args", rng.choice(BAD_ARGV)))
         return hist
+    if variant["links"] and 0.31 <= r0 < 0.39:
+        TEMPLATE[0] = "failed_instantiate_then_instantiate"
+        # dedicated: an instantiate_classes call that fails after links were applied (a later constructor raises), then
+        # further instantiate_classes calls on the same parser
+        for _ in range(rng.randrange(1, 3)):
+            hist.append(("instantiate", rng.choice([["--late.init_args.own=13"], ["--late.init_args.own=13", "--enc.init_args.own=6"]])))
+        for _ in range(rng.randrange(1, 4)):
+            hist.append(("instantiate", rng.choice([[], ["--enc.init_args.own=7"], ["--dec.init_args.own=5"], ["--i=3"]])))
+        return hist
     if r0 < 0.16:
         TEMPLATE[0] = "union_of_class_and_factory"
         # dedicated: a parameter typed Union[Class, Callable[[int], Class]] given values only one of the members takes, in turn
@@ -346,7 +365,7 @@ def run_step(p, other, step, workdir, fresh_factory):
     if op == "instantiate":
         o = call(p.instantiate_classes, copy.deepcopy(cfg))
         if o.accepted:
-            o.value = Namespace(types=sorted(f"{k}:{type(v).__name__}:{getattr(v, 'a', None)}:{getattr(v, 'c', None)}" for k, v in o.value.items()))
+            o.value = Namespace(types=sorted(f"{k}:{type(v).__name__}:{getattr(v, 'a', None)}:{getattr(v, 'c', None)}:{getattr(v, 'kw', None)}" for k, v in o.value.items()))
         return o
     raise AssertionError(op)
 
